@@ -47,7 +47,7 @@ fn contact() -> impl Strategy<Value = Contact> {
     (
         prop_oneof![4 => Just(Kind::Answer), 3 => Just(Kind::Silent), 1 => Just(Kind::KrpcError), 1 => Just(Kind::Garbage)],
         prop_oneof![6 => Just((true, false)), 2 => Just((false, true)), 2 => Just((true, true))],
-        prop_oneof![Just(0u16), 1u16..400, 400u16..2400],
+        prop_oneof![3 => Just(0u16), 3 => 1u16..400, 2 => 400u16..2400, 1 => 2400u16..2600, 1 => 2600u16..9000],
     )
         .prop_map(|(kind, (as_node, as_router), delay_ms)| Contact { kind, as_node, as_router, delay_ms })
 }
@@ -137,7 +137,8 @@ impl Stage for Boot {
             }
 
             let plain = routers.is_empty() && !nodes.is_empty();
-            let some_answerer = c.contacts.iter().any(|c| c.kind == Kind::Answer && c.as_node);
+            // a contact is responsive if its answer arrives within the 2.5 s the initial round waits
+            let some_answerer = c.contacts.iter().any(|c| c.kind == Kind::Answer && c.as_node && c.delay_ms < 2400);
             let last_waiter = c.waiters.iter().max().copied().unwrap_or(0) as u64;
             let end = t_up.max(last_waiter) + 700_000;
             // liveness sampling
@@ -207,7 +208,7 @@ impl Stage for Boot {
         })
     }
     fn rule(&self) -> String {
-        "builder configurations: 0..40 contacts, each given as node, as router (literal ip:port) or both, each answering / silent / answering with a KRPC error / answering garbage after 0..2.4 s; read-only on/off; outage patterns (none, 1..3 outages of 1 ms..30 min with up-times from 1 s, flapping 4..12 times with 1..2 s up-times, one outage of 10 min..2 h) during which no contact answers; 0..12 bootstrapped() callers at times 0..50 min. Oracle: API liveness sampled ~400 times over the run; no contacts => waiters true at once and no traffic; contacts => no waiter resolves before the first response reaches the node; plain nodes with an answering contact => every waiter true by max(call, network-up) + 660 s. Non-trivial: an outage > 60 s with >= 2 distinct waiter times, or a router/node overlap, or > 9 contacts".into()
+        "builder configurations: 0..40 contacts, each given as node, as router (literal ip:port) or both, each answering / silent / answering with a KRPC error / answering garbage after 0..9 s (answers later than the 2.5 s initial-round timeout count as unresponsive for the deadline); read-only on/off; outage patterns (none, 1..3 outages of 1 ms..30 min with up-times from 1 s, flapping 4..12 times with 1..2 s up-times, one outage of 10 min..2 h) during which no contact answers; 0..12 bootstrapped() callers at times 0..50 min. Oracle: API liveness sampled ~400 times over the run; no contacts => waiters true at once and no traffic; contacts => no waiter resolves before the first response reaches the node; plain nodes with an answering contact => every waiter true by max(call, network-up) + 660 s. Non-trivial: an outage > 60 s with >= 2 distinct waiter times, or a router/node overlap, or > 9 contacts".into()
     }
     fn sample(&self, c: &Case) -> serde_json::Value {
         serde_json::json!({"contacts": c.contacts.iter().take(6).map(|x| format!("{:?}/{}{}", x.kind, if x.as_node {"N"} else {""}, if x.as_router {"R"} else {""})).collect::<Vec<_>>(), "n_contacts": c.contacts.len(), "outages": c.outages, "waiters": c.waiters})
